@@ -1,16 +1,89 @@
 package main
 
 import (
+	"fmt"
 	"go/types"
 
 	"golang.org/x/tools/go/ssa"
 )
 
-func (x *executor) makeMap(m *machine, fr *frame, in *ssa.MakeMap) Val {
-	panic(unsupported("MakeMap"))
+// Maps: a map value is a reference (Int, 0 = nil map). Per map type there are two heaps,
+//   Mhas_<type> : Array Int (Array K Bool)    which keys are present
+//   Mval_<type> : Array Int (Array K V)       their values (zero value of V where absent)
+// kept in state.heaps under the keys "maphas:<type>" / "mapval:<type>". len(m) and range over a map are not
+// modelled (unsupported). Frame: writing a map that was not allocated by the call needs `modifies m`.
+
+func mapKeys(t types.Type) (string, string) {
+	k := typeKey(t)
+	return "maphas:" + k, "mapval:" + k
 }
 
-func (x *executor) mapUpdate(m *machine, fr *frame, in *ssa.MapUpdate) { panic(unsupported("MapUpdate")) }
+func (c *ctx) mapSorts(mt *types.Map) (hasSort, valSort string) {
+	ks := c.sortOf(mt.Key())
+	return arraySort("Int", arraySort(ks, "Bool")), arraySort("Int", arraySort(ks, c.sortOf(mt.Elem())))
+}
+
+func (c *ctx) mapHeaps(st *state, t types.Type) (has, val *T) {
+	mt := t.Underlying().(*types.Map)
+	hk, vk := mapKeys(t)
+	hs, vs := c.mapSorts(mt)
+	if h, ok := st.heaps[hk]; ok {
+		has = h
+	} else {
+		has = c.d.constant("M0has_"+sanitize(typeKey(t)), hs)
+		st.heaps[hk] = has
+	}
+	if v, ok := st.heaps[vk]; ok {
+		val = v
+	} else {
+		val = c.d.constant("M0val_"+sanitize(typeKey(t)), vs)
+		st.heaps[vk] = val
+	}
+	return
+}
+
+func (c *ctx) setMapHeaps(st *state, t types.Type, has, val *T) {
+	hk, vk := mapKeys(t)
+	st.heaps[hk] = c.name(st, "Mhas_"+sanitize(typeKey(t)), has)
+	st.heaps[vk] = c.name(st, "Mval_"+sanitize(typeKey(t)), val)
+}
+
+func (x *executor) makeMap(m *machine, fr *frame, in *ssa.MakeMap) Val {
+	c := x.c
+	t := in.Type()
+	mt := t.Underlying().(*types.Map)
+	if in.Reserve != nil {
+		x.val(m, fr, in.Reserve)
+	}
+	ref := c.freshRef(m.st)
+	has, val := c.mapHeaps(m.st, t)
+	ks := c.sortOf(mt.Key())
+	emptyHas := app(fmt.Sprintf("(as const %s)", arraySort(ks, "Bool")), arraySort(ks, "Bool"), tFalse)
+	emptyVal := app(fmt.Sprintf("(as const %s)", arraySort(ks, c.sortOf(mt.Elem()))), arraySort(ks, c.sortOf(mt.Elem())), c.zero(mt.Elem()))
+	c.setMapHeaps(m.st, t, mkStore(has, ref, emptyHas), mkStore(val, ref, emptyVal))
+	return Val{t: ref, typ: t}
+}
+
+func (x *executor) mapUpdate(m *machine, fr *frame, in *ssa.MapUpdate) {
+	c := x.c
+	mv := x.val(m, fr, in.Map)
+	k := c.termOf(x.val(m, fr, in.Key))
+	v := c.termOf(x.val(m, fr, in.Value))
+	t := in.Map.Type()
+	ref := c.termOf(mv)
+	x.oblige(m, "nil", x.instrName(fr, in, "nil-map"), mkNot(mkEq(ref, refConst(0))), nil, "assignment to an entry of a map that is not nil")
+	m.st.assume(mkNot(mkEq(ref, refConst(0))))
+	x.checkFrameRef(m, fr, in, true, "map:"+typeKey(t), ref)
+	has, val := c.mapHeaps(m.st, t)
+	c.setMapHeaps(m.st, t, mkStore(has, ref, mkStore(mkSelect(has, ref), k, tTrue)), mkStore(val, ref, mkStore(mkSelect(val, ref), k, v)))
+}
+
+func (x *executor) mapGet(st *state, mv Val, k *T) (val, has *T) {
+	c := x.c
+	h, v := c.mapHeaps(st, mv.typ)
+	ref := c.termOf(mv)
+	return mkSelect(mkSelect(v, ref), k), mkSelect(mkSelect(h, ref), k)
+}
 
 func (x *executor) lookup(m *machine, fr *frame, in *ssa.Lookup) {
 	c := x.c
@@ -20,30 +93,67 @@ func (x *executor) lookup(m *machine, fr *frame, in *ssa.Lookup) {
 	}
 	mt := in.X.Type().Underlying().(*types.Map)
 	k := x.val(m, fr, in.Index)
-	if cm, ok := gmByRef[v.t.String()]; ok {
-		val, has := x.constMapLookup(cm, c.termOf(k))
-		if in.CommaOk {
-			fr.env[in] = Val{tup: []Val{{t: val, typ: mt.Elem()}, {t: has, typ: types.Typ[types.Bool]}}}
-		} else {
-			fr.env[in] = Val{t: val, typ: mt.Elem()}
+	if v.t != nil {
+		if cm, ok := gmByRef[v.t.String()]; ok {
+			val, has := x.constMapLookup(cm, c.termOf(k))
+			if in.CommaOk {
+				fr.env[in] = Val{tup: []Val{{t: val, typ: mt.Elem()}, {t: has, typ: types.Typ[types.Bool]}}}
+			} else {
+				fr.env[in] = Val{t: val, typ: mt.Elem()}
+			}
+			return
 		}
-		return
 	}
-	panic(unsupported("map lookup on non-constant map"))
+	val, has := x.mapGet(m.st, Val{t: c.termOf(v), typ: in.X.Type()}, c.termOf(k))
+	// a missing key (and the nil map) yields the zero value
+	val = mkIte(has, val, c.zero(mt.Elem()))
+	if in.CommaOk {
+		fr.env[in] = Val{tup: []Val{{t: val, typ: mt.Elem()}, {t: has, typ: types.Typ[types.Bool]}}}
+	} else {
+		fr.env[in] = Val{t: val, typ: mt.Elem()}
+	}
 }
 
 func (x *executor) rangeInstr(m *machine, fr *frame, in *ssa.Range) { panic(unsupported("Range")) }
 func (x *executor) nextInstr(m *machine, fr *frame, in *ssa.Next)   { panic(unsupported("Next")) }
 func (x *executor) mapLen(st *state, v Val) *T                      { panic(unsupported("len(map)")) }
+
+// mapLookupVal: m[k] in a contract (zero value where absent)
 func (x *executor) mapLookupVal(st *state, mv Val, k Val) Val {
 	mt := mv.typ.Underlying().(*types.Map)
-	if cm, ok := gmByRef[mv.t.String()]; ok {
-		val, _ := x.constMapLookup(cm, x.c.termOf(k))
-		return Val{t: val, typ: mt.Elem()}
+	if mv.t != nil {
+		if cm, ok := gmByRef[mv.t.String()]; ok {
+			val, _ := x.constMapLookup(cm, x.c.termOf(k))
+			return Val{t: val, typ: mt.Elem()}
+		}
 	}
-	panic(unsupported("map index in contract"))
+	val, has := x.mapGet(st, mv, x.c.termOf(k))
+	return Val{t: mkIte(has, val, x.c.zero(mt.Elem())), typ: mt.Elem()}
 }
-func (x *executor) havocMap(st *state, mt modTarget)                { panic(unsupported("havoc map")) }
+
+// mapHasVal: has(m, k) in a contract
+func (x *executor) mapHasVal(st *state, mv Val, k Val) *T {
+	_, has := x.mapGet(st, mv, x.c.termOf(k))
+	return has
+}
+
+func (x *executor) havocMap(st *state, mt modTarget) {
+	c := x.c
+	has, val := c.mapHeaps(st, mt.typ)
+	m := mt.typ.Underlying().(*types.Map)
+	ks := c.sortOf(m.Key())
+	nh := c.d.fresh("mhas", arraySort(ks, "Bool"))
+	nv := c.d.fresh("mval", arraySort(ks, c.sortOf(m.Elem())))
+	c.setMapHeaps(st, mt.typ, mkStore(has, mt.ref, nh), mkStore(val, mt.ref, nv))
+}
+
 func (x *executor) mapDelete(m *machine, fr *frame, in ssa.Instruction, mv, k Val, t types.Type) {
-	panic(unsupported("delete"))
+	c := x.c
+	ref := c.termOf(mv)
+	x.checkFrameRef(m, fr, in, true, "map:"+typeKey(t), ref)
+	has, val := c.mapHeaps(m.st, t)
+	mt := t.Underlying().(*types.Map)
+	kt := c.termOf(k)
+	// delete on a nil map is a no-op; the store at reference 0 is never read as a real map
+	c.setMapHeaps(m.st, t, mkStore(has, ref, mkStore(mkSelect(has, ref), kt, tFalse)), mkStore(val, ref, mkStore(mkSelect(val, ref), kt, c.zero(mt.Elem()))))
 }
